@@ -635,6 +635,9 @@ it3
             final(self).edges == old(self).edges, final(self).adjacency_table == old(self).adjacency_table, final(self).stop == old(self).stop,
             // a candidate is a stored edge that passed the permissibility test
             r matches Some(cand) ==> stored(old(self).edges, cand.0 as int, cand.1 as int) && permissible(old(self).adjacency_table@, t.snode@, cand.0, cand.1),
+            // None: none of the edges in the slots p[1..nnz] of the weight-sorted permutation is permissible.  NOTE p[0] is skipped on the
+            // assumption that it is the slot max_elem looked at - with equal maximal weights it is not (potential defect PD1 in the header)
+            r is None ==> final(self).p@.len() >= old(self).edges.nzval@.len() && forall|k: int| 1 <= k < old(self).edges.nzval@.len() ==> !slot_perm(old(self).edges, old(self).adjacency_table@, t.snode@, #[trigger] final(self).p@[k] as int),
 //@pre
         let ghost E = self.edges;
         let ghost T = self.adjacency_table@;
@@ -650,6 +653,9 @@ it3
                 self.edges == E, self.adjacency_table@ == T, self.stop == old(self).stop, old(self).core(*t), E == old(self).edges, T == old(self).adjacency_table@,
                 p@.len() >= E.nzval@.len(), is_perm(p@.subrange(0, E.nzval@.len() as int)),
                 rb_ok(rb_ret1, E, T, t.snode@),
+                rb_ret1 is None ==> forall|k2: int| 1 <= k2 < $var1 ==> !slot_perm(E, T, t.snode@, #[trigger] p@[k2] as int),
+            ensures
+                rb_ret1 is None ==> forall|k2: int| 1 <= k2 < E.nzval@.len() ==> !slot_perm(E, T, t.snode@, #[trigger] p@[k2] as int),
 //@body_start 1
             proof {
                 let q = p@.subrange(0, E.nzval@.len() as int);
@@ -659,7 +665,17 @@ it3
             proof {
                 lemma_slot(E, p@[$var1 as int] as int, edge.1 as int);
                 lemma_nbrs_in_range(T, tn(*t), edge.0);
+                // the column of a slot is unique: the edge looked at is THE edge of slot p[k]
+                assert forall|c: int| in_col(E, p@[$var1 as int] as int, c) implies c == edge.1 by { lemma_col_unique(E, p@[$var1 as int] as int, c, edge.1 as int); }
             }
+//@post
+        proof {
+            if r_v is None {
+                assert(self.p@.len() >= E.nzval@.len());
+                assert(E.nzval@.len() >= 1);
+                assert forall|k: int| 1 <= k < E.nzval@.len() implies !slot_perm(E, T, t.snode@, #[trigger] self.p@[k] as int) by { }
+            }
+        }
 //@end
 //@fn file=src/solver/chordal/merge/clique_graph.rs in="MergeStrategy for CliqueGraphMergeStrategy" name=evaluate ret=r
 //@contract
@@ -856,9 +872,11 @@ it3
                     if r == $var4 && c == cr { assert(stored(Eb, r, c) == (ent(Eb, r, c) is Some)); }
                 }
             }
+//@before_loop 5
+        proof { E5 = *edges; }
 //@loop 5
             invariant
-                us_ctx(*t, T0, gn, c1, cr), c_removed == cr, n == gn, eg_inv(*edges, T0, gn),
+                E5 == *edges, us_ctx(*t, T0, gn, c1, cr), c_removed == cr, n == gn, eg_inv(*edges, T0, gn),
                 forall|r: int, c: int| #![trigger ent(*edges, r, c)] ent(*edges, r, c) == (if (c == cr && cr < r < gn) || (r == cr && 0 <= c < $var5) { zero(ent(E3, r, c)) } else { ent(E3, r, c) }),
 //@body_start 5
             let ghost Eb = *edges;
@@ -869,10 +887,10 @@ it3
                     assert(ent(Eb, r, c) == (if (c == cr && cr < r < gn) || (r == cr && 0 <= c < $var5) { zero(ent(E3, r, c)) } else { ent(E3, r, c) }));
                     if c == $var5 && r == cr { assert(stored(Eb, r, c) == (ent(Eb, r, c) is Some)); }
                 }
+                E5 = *edges;
             }
-//@before "edges.dropzeros();"
+//@before_loop 6
         proof {
-            E5 = *edges;
             assert forall|r: int, c: int| r != cr && c != cr implies #[trigger] nz(ent(E5, r, c)) ==
                 nz(if is_pair(c1, r, c) && ((other(c1, r, c) != cr && nbrs.contains(other(c1, r, c))) || nn.contains(other(c1, r, c))) { Some(wt(*t, c1, other(c1, r, c))) } else { ent(E0, r, c) }) by {
                 lemma_in_pre_full(nbrs, other(c1, r, c)); lemma_in_pre_full(nn, other(c1, r, c));
@@ -880,9 +898,7 @@ it3
                 assert(ent(E3, r, c) == (if is_pair(c1, r, c) && in_pre(nn, nn.len() as int, other(c1, r, c)) { setv(ent(E2, r, c), wt(*t, c1, other(c1, r, c))) } else { ent(E2, r, c) }));
                 assert(ent(E2, r, c) == (if is_pair(c1, r, c) && other(c1, r, c) != cr && in_pre(nbrs, nbrs.len() as int, other(c1, r, c)) { setv(ent(E0, r, c), wt(*t, c1, other(c1, r, c))) } else { ent(E0, r, c) }));
             }
-        }
-//@after "edges.dropzeros();"
-        proof {
+            // after dropzeros: nothing is left in the row / column of the removed clique
             assert forall|r: int, c: int| #[trigger] stored(*edges, r, c) implies 0 <= c < r && T0.contains_key(r as usize) && T0.contains_key(c as usize) && r != cr && c != cr by {
                 assert(nz(ent(E5, r, c)) is Some);
                 assert(stored(E5, r, c));
@@ -896,7 +912,7 @@ it6
             invariant
                 it6.seq().len() == nn.len(), forall|k: int| 0 <= k < nn.len() ==> *(#[trigger] it6.seq()[k]) == nn[k], nn == new_neighbors@, nn.no_duplicates(),
                 forall|k: int| 0 <= k < nn.len() ==> #[trigger] nn[k] < gn && nn[k] != c1 && nn[k] != cr && T0.contains_key(nn[k]) && !nbrs.contains(nn[k]),
-                us_ctx(*t, T0, gn, c1, cr), c_1_ind == c1,
+                us_ctx(*t, T0, gn, c1, cr), c_1_ind == c1, T5 == (*adjacency_table)@,
                 forall|a: usize| #[trigger] (*adjacency_table)@.contains_key(a) <==> T0.contains_key(a),
                 forall|a: usize| T0.contains_key(a) ==> (#[trigger] (*adjacency_table)@[a])@.no_duplicates(),
                 forall|a: usize, x: usize| #[trigger] adj((*adjacency_table)@, a, x) <==> adj(T0, a, x) || (a == c1 && in_pre(nn, it6.index@ as int, x)) || (x == c1 && in_pre(nn, it6.index@ as int, a)),
@@ -917,13 +933,10 @@ it6
                     assert(adj(Tb, a, x) <==> adj(T0, a, x) || (a == c1 && in_pre(nn, gi, x)) || (x == c1 && in_pre(nn, gi, a)));
                     if a != c1 && a != y && Tc.contains_key(a) { assert(Tc[a] == Tb[a]); }
                 }
+                T5 = Tc;
             }
-//@before "adjacency_table.remove(&c_removed);"
-        proof { T5 = (*adjacency_table)@; }
-//@after "adjacency_table.remove(&c_removed);"
-        proof { T6 = (*adjacency_table)@; }
 //@before_loop 7
-        proof { kl = vm_keys1@; }
+        proof { T6 = (*adjacency_table)@; kl = vm_keys1@; }
 //@loop 7
             invariant
                 kl == vm_keys1@, vm_keys1@.no_duplicates(), forall|k: usize| vm_keys1@.contains(k) <==> T6.contains_key(k), c_removed == cr,
@@ -1042,6 +1055,8 @@ it1
         }
 //@end
 }
+// the edge stored in slot s is permissible
+pub open spec fn slot_perm(E: CscMatrix<isize>, T: Adj, sn: Seq<VertexSet>, s: int) -> bool { exists|c: int| #[trigger] in_col(E, s, c) && permissible(T, sn, E.rowval@[s], c as usize) }
 pub open spec fn rb_ok(rb: Option<Option<(usize, usize)>>, E: CscMatrix<isize>, T: Adj, sn: Seq<VertexSet>) -> bool {
     match rb { Some(v) => (match v { Some(c) => stored(E, c.0 as int, c.1 as int) && permissible(T, sn, c.0, c.1), None => false }), None => true }
 }
@@ -1226,7 +1241,7 @@ impl CliqueGraphMergeStrategy {
     // post_order (unit chordal_merge D2) and of split_cliques - see the header (open obligations O3..O5)
     #[verifier::external_body]
     fn clique_tree_from_graph(&mut self, t: &mut SuperNodeTree)
-        requires old(self).core(*old(t)), old(t).n_cliques > 1,
+        requires old(self).core(*old(t)), old(t).n_cliques > 1, forall|c: int| 0 <= c < tn(*old(t)) ==> #[trigger] old(t).snode_parent@[c] == INACTIVE_NODE,
         ensures pp_mid(*final(t)), final(t).n_cliques == old(t).n_cliques, final(t).post == old(t).post, tn(*final(t)) == tn(*old(t)),
     { unimplemented!() }
 }
